@@ -47,7 +47,18 @@ pub fn run(ctx: &Ctx) -> Report {
                     }
                 }
             }
-            let names: Vec<String> = (0..6).map(|_| gen_name(&mut rng)).collect();
+            let mut names: Vec<String> = (0..6).map(|_| gen_name(&mut rng)).collect();
+            // names that are themselves valid addresses of this codec (an address made from a name, a humanized byte string)
+            {
+                use cosmwasm_std::Api;
+                let api32 = cw_multi_test::MockApiBech32::new(Box::leak(prefix.clone().into_boxed_str()));
+                let api32m = cw_multi_test::MockApiBech32m::new(Box::leak(prefix.clone().into_boxed_str()));
+                names.push(api32.addr_make(&names[0]).to_string());
+                names.push(api32m.addr_make(&names[1]).to_string());
+                if let Ok(a) = api32.addr_humanize(&cosmwasm_std::CanonicalAddr::from(gen_bytes(&mut rng, 20))) {
+                    names.push(a.to_string());
+                }
+            }
             let case = Case::Names { prefix: prefix.clone(), names };
             if let Some((sig, detail)) = run_case(&case, &mut rep) {
                 report_failure(&mut rep, &case, &sig, &detail);
